@@ -279,7 +279,14 @@ func (s *SpecValidator) validateSchemaPropertyNames(nm string, sch spec.Schema, 
 	schc := &sch
 	res := pools.poolOfResults.BorrowResult()
 
+	followed := make(map[string]struct{}) // an alias may lead back to itself
 	for schc.Ref.String() != "" {
+		ref := schc.Ref.String()
+		if _, again := followed[ref]; again {
+			return dups, res
+		}
+		followed[ref] = struct{}{}
+
 		// gather property names
 		reso, err := s.resolveRef(&schc.Ref)
 		if err != nil {
@@ -323,8 +330,16 @@ func (s *SpecValidator) validateCircularAncestry(nm string, sch spec.Schema, kno
 
 	schn := nm
 	schc := &sch
+	viaRef := false
 
+	followed := make(map[string]struct{}) // an alias may lead back to itself
 	for schc.Ref.String() != "" {
+		ref := schc.Ref.String()
+		if _, again := followed[ref]; again {
+			return append(ancs, ref), res
+		}
+		followed[ref] = struct{}{}
+
 		reso, err := s.resolveRef(&schc.Ref)
 		if err != nil {
 			errorHelp.addPointerError(res, err, schc.Ref.String(), nm)
@@ -332,9 +347,12 @@ func (s *SpecValidator) validateCircularAncestry(nm string, sch spec.Schema, kno
 		}
 		schc = reso
 		schn = sch.Ref.String()
+		viaRef = true
 	}
 
-	if schn != nm && schn != "" {
+	// a parent reached through a reference is always looked up, also when it bears the name of the
+	// schema it is a parent of (a definition that is its own parent): nothing else ends the recursion
+	if viaRef || (schn != nm && schn != "") {
 		if _, ok := knowns[schn]; ok {
 			ancs = append(ancs, schn)
 		}
